@@ -571,6 +571,65 @@ def laws(rng, tier, ctx):
             if got != direct:
                 yield Finding('violation', dict(tag='law-transparent', lines=[line]),
                               'decorated call gives %r, f gives %r' % (got, direct))
+    # (2b) arguments that are not scalars: int / float ndarrays (also inside a list), namedtuples, lists, dicts - through every single
+    # decorator and random stacks.  pd2np turns int arrays into float arrays before calling f (documented: "will also convert int
+    # numpy arrays into floaters") - known finding K6, recognised precisely: the result is f's result on the converted arguments
+    import numpy as np, collections
+    P2 = collections.namedtuple('P2', ['x', 'y'])
+
+    def show(v):
+        if isinstance(v, np.ndarray):
+            return 'array(%s, %s)' % (v.tolist(), v.dtype)
+        if isinstance(v, dict):
+            return '{%s}' % ', '.join('%r: %s' % (k, show(x)) for k, x in v.items())
+        if isinstance(v, (list, tuple)):
+            return '%s(%s)' % (type(v).__name__, ', '.join(show(x) for x in v))
+        return repr(v)
+
+    def i2f(v):
+        if isinstance(v, np.ndarray) and v.dtype.kind == 'i':
+            return v.astype(float)
+        if isinstance(v, dict):
+            return {k: i2f(x) for k, x in v.items()}
+        if isinstance(v, (list, tuple)):
+            return type(v)(*[i2f(x) for x in v]) if hasattr(v, '_fields') else type(v)([i2f(x) for x in v])
+        return v
+    specials = [lambda: np.array([1, 2]), lambda: np.array([1.5, 2.5]), lambda: [np.array([1, 2]), 3], lambda: P2(1, 2), lambda: P2(np.array([3]), 'x'),
+                lambda: {'k': np.array([1, 2])}, lambda: [1, [2, 3]], lambda: {'p': 1}]
+    for sig, args, kw in rng.sample(allcalls, 150 if tier == 'quick' else len(allcalls)):
+        if not args and not kw:
+            continue
+        f = make_fn(sig)
+        for ds in stacks + [[(c, deco_params(rng, c)) for c in rng.sample(CLASSES, rng.choice([2, 3]))]]:
+            if any(c in ('loops', 'try_back') for c, _ in ds):
+                continue          # loops on a container argument is C19; try_back returns the argument itself
+            if sig[3] and any(c == 'kwargs_support' for c, _ in ds) and any(n not in sig[0] for n in kw):
+                continue          # K1 (reported by law (2) with a replayable line)
+            mk = rng.choice(specials)
+            pos = rng.randrange(len(args) + len(kw))
+
+            def build():
+                a, k = list(args), dict(kw)
+                if pos < len(a):
+                    a[pos] = mk()
+                else:
+                    k[sorted(k)[pos - len(a)]] = mk()
+                return a, k
+            count += 1
+            g = f
+            for cls, params in ds:
+                g = construct(cls, params, g)
+            a, k = build()
+            direct = show(res_val(lambda: f(*a, **k)))
+            a, k = build()
+            got = show(res_val(lambda: g(*a, **k)))
+            if got != direct:
+                a, k = build()
+                conv = show(res_val(lambda: f(*i2f(a), **i2f(k))))
+                k6 = any(c == 'pd2np' for c, _ in ds) and got == conv
+                yield Finding('violation', dict(tag='law-pd2np-int-array' if k6 else 'law-transparent-containers', lines=[],
+                                                values=[sig_enc(sig), decos_enc(ds), show(a), show(k)]),
+                              'decorated call %s(*%s, **%s) gives %s, f gives %s' % ([c for c, _ in ds], show(a), show(k), got, direct))
     # (3) wrapping twice = wrapping once, directly and through a chain of other decorators
     base = make_fn((['a', 'b'], [1], None, None))
     for c in CLASSES:
@@ -707,13 +766,18 @@ def _k1(f):
     return bool(lines) and all(line_is_k1(l) for l in lines[-1:]) and ('stack' in f.case.get('tag', '') or f.case.get('tag') == 'law-transparent')
 
 
+def _k6(f):
+    return f.case.get('tag') == 'law-pd2np-int-array'
+
+
 def _k5(f):
     return f.case.get('tag') == 'law-cache-ndarray'
 
 
 MATCHERS = {'kwargs_support_drops_undeclared_keyword_of_varkw_function': _k1,
             'loops_consumes_keyword_called_axis': _k4,
-            'cache_reevaluates_ndarray_argument': _k5}
+            'cache_reevaluates_ndarray_argument': _k5,
+            'pd2np_converts_int_array_to_float': _k6}
 
 
 def shrink(case, still_fails):
